@@ -16,7 +16,11 @@ CASE_TIMEOUT = 0.2
 RULE = ("case = a history of control settings (altscreen, cursorvis, cursorblink, mouse, cursorshape, keypad_app; any "
         "order, repeated, redundant; boolean controls with truthy values 2, 4, 256, -1 as well as 0/1), control reads, set-pen / change-pen, pause / resume cycles, ending in teardown "
         "and/or destruction -- directly on an xterm TickitTerm (T) or through a toplevel Tickit instance whose first tick "
-        "runs setupterm (U; W = the same with a terminal in the loop whose replies to the start-up queries arrive on the input fd after 0, 1, 2 reads or never), optionally with the application holding its own reference on the root window or the terminal across the final tickit_unref.  The bytes of every operation are compared with the model's and run through the extracted "
+        "runs setupterm (U; B = CONSTRUCTION ORDERS AND OUTPUT BUFFERS: the terminal comes from tickit_term_new_for_termtype and the history itself "
+        "sets the output buffer (sizes 1..4096), attaches the output (function or fd; the first attach starts the driver) and flushes, in any order -- "
+        "buffer, settings, then output; output, buffer, settings; ... -- with no flush added by the harness, so that each observation is what has been "
+        "DELIVERED to the output during the call and a history may end in an explicit teardown; judged by TermBufSpec.oracle_buf at the points where the "
+        "library owes the terminal everything written so far: after flush, teardown, destruction, the first attach, and after every call without a buffer; W = the same with a terminal in the loop whose replies to the start-up queries arrive on the input fd after 0, 1, 2 reads or never), optionally with the application holding its own reference on the root window or the terminal across the final tickit_unref.  The bytes of every operation are compared with the model's and run through the extracted "
         "VT: after pause / teardown / destruction the modes of the property's list and the rendition are the initial ones, "
         "after resume (and after every setting while running) they are the logical ones, the rendition is the logical "
         "pen, and every read returns the last value set.  Non-trivial = at least one operation wrote bytes; distinct = "
@@ -26,6 +30,9 @@ ASSUMPTIONS = [
     "default rendition); the cursor's initial blink state and shape are whatever the terminal reports",
     "control values in range (boolean controls: any int, read as C truthiness; mouse 0..3; cursor shape 1..3); pens as for C10",
     "nothing is requested between teardown and destruction; settings made while paused are checked after the next resume",
+    "layer B (TermBufSpec): before an output is attached only set_output_buffer, settings and reads are judged (a pen set there is reset by "
+    "start()'s SGR probe while it stays cached; bytes written without buffer and output, or a buffer that fills up or is replaced before "
+    "it could be delivered, are dropped by term.c: such histories are out of range, i.e. at most 8 settings into a buffer of at least 1024 bytes)",
     "the property's list of modes: alternate screen, cursor visibility, mouse reporting (+SGR encoding), application keypad, "
     "rendition; cursor blink and shape are not restored by the library and are compared only after being set; DECLRMM "
     "(mode 69), which start() enables for probing and never disables, is not a control and is outside the list",
@@ -117,6 +124,28 @@ def _gen(tier, seed, info):
                         continue          # each of these waits 50 ms in await_started
                     yield emit("responding_terminal", "W %d 0 %d %d %d %d %d g:V g:B g:H t g:V g:B g:H B:0 t H:2 t g:V g:B g:H Z R D"
                                % (wn % 2, wn % 2, d69, d25, d12, dsc))
+    # 4d. construction orders and output buffers (layer B): no flush is added; what counts is what has been delivered
+    bsets = ["A:1", "V:0", "M:2", "A:1 V:0", "A:1 V:0 M:3", "M:1 K:0", "A:2 M:2 V:-1", "B:1 H:2 A:1"]
+    bends = ["T", "g:A g:V g:M T", "F g:A g:V g:M Z F R F T", "D", "T D", "Z T", "F Z R T", "g:M Z R g:A D"]
+    for fd in (0, 1):
+        for cfg in bsets:
+            for end in bends:
+                # buffer -> settings -> output
+                yield emit("construction_order", "B 2 2 0 0 %d b:4096 %s o %s" % (fd, cfg, end))
+                # output -> buffer -> settings
+                yield emit("construction_order", "B 2 2 0 0 %d o b:4096 %s %s" % (fd, cfg, end))
+            # buffer -> output -> settings; settings split around the attach; no buffer at all; buffer replaced after a flush
+            yield emit("construction_order", "B 2 2 1 1 %d b:1024 o %s F T" % (fd, cfg))
+            yield emit("construction_order", "B -1 0 0 0 %d b:2048 %s o %s g:A g:V g:M T" % (fd, cfg, cfg))
+            yield emit("construction_order", "B 2 2 0 0 %d o %s T" % (fd, cfg))
+            yield emit("construction_order", "B 2 1 0 0 %d b:4096 %s o F b:16 %s Z R T" % (fd, cfg, cfg))
+            yield emit("construction_order", "B 2 2 0 0 %d b:4096 %s o b:0 %s T" % (fd, cfg, cfg))
+    for size in (1, 2, 7, 16, 64, 4096):
+        for fd in (0, 1):
+            for pen in ("b=1,fg=3", "rv=1", "fg=12#aabbcc,u=3"):
+                for mid in ("", "F", "Z R", "Z F R", "A:0 A:1 A:1 V:1 V:0 M:0 M:1"):
+                    yield emit("buffered_teardown", ("B 2 2 1 1 %d o b:%d A:1 V:0 M:3 s:%s %s T" % (fd, size, pen, mid)).replace("  ", " "))
+                    yield emit("buffered_teardown", ("B 2 2 0 0 %d b:%d o A:1 s:%s %s c:b=0 T g:A" % (fd, size, pen, mid)).replace("  ", " "))
     info["exhaustive"] = True
     info["exhaustive_scope"] = ("every control x every ordered pair of its values with read-back, pause/resume and teardown, "
                                 "for five probed start states; all 2-setting histories over altscreen/cursorvis/mouse/keypad "
@@ -155,13 +184,60 @@ def _gen(tier, seed, info):
         else:
             h = rnd.choice(heads + ["T %d %d %d %d" % (rnd.choice([-1, 0, 1, 2, 3, 4, 5, 6]), rnd.randint(0, 2), rnd.randint(0, 1), rnd.randint(0, 1))])
             yield emit("random_T", "%s %s" % (h, " ".join(ops)))
+    # 6. random histories of layer B
+    for _ in range(1500 if quick else 200000):
+        fd = rnd.randint(0, 1)
+        ops = []
+        attached = False
+        cap = 0
+        synced = True
+        pre = 0
+        paused = False
+        order = rnd.random()
+        if order < 0.45:
+            cap = rnd.choice([1024, 4096])
+            ops.append("b:%d" % cap)
+        elif order < 0.8:
+            ops.append("o"); attached = True
+            if rnd.random() < 0.8:
+                cap = rnd.choice([1, 3, 7, 16, 64, 4096]); ops.append("b:%d" % cap)
+        else:
+            ops.append("o"); attached = True
+        for _ in range(rnd.randint(1, 10)):
+            r = rnd.random()
+            if not attached:
+                if r < 0.5 and cap >= 1024 and pre < 6:
+                    c = rnd.choice("AVMMK"); ops.append("%s:%d" % (c, rnd.choice(SETS[c]))); pre += 1; synced = False
+                elif r < 0.65:
+                    ops.append("g:" + rnd.choice("AVMK"))
+                else:
+                    ops.append("o"); attached = True; synced = True
+                continue
+            if r < 0.4:
+                c = rnd.choice("AAVVMMMBHKK"); ops.append("%s:%d" % (c, rnd.choice(SETS[c]))); synced = cap == 0
+            elif r < 0.5:
+                ops.append("g:" + rnd.choice("AVBMHK"))
+            elif r < 0.62:
+                ops.append(rnd.choice("sc") + ":" + rnd.choice(PENS)); synced = cap == 0
+            elif r < 0.77:
+                ops.append("R" if paused and rnd.random() < 0.8 else "Z"); paused = ops[-1] == "Z"; synced = cap == 0
+            elif r < 0.9:
+                ops.append("F"); synced = True
+            elif r < 0.95 and synced:
+                cap = rnd.choice([0, 1, 5, 16, 256]); ops.append("b:%d" % cap)
+            else:
+                ops.append("o")
+        if not attached:
+            ops.append("o")
+        ops.append(rnd.choice(["T", "T", "T", "D", "T D", "F T", "T g:A g:M"]))
+        yield emit("random_B", "B %d %d %d %d %d %s" % (rnd.choice([-1, 1, 2, 4]), rnd.randint(0, 2), rnd.randint(0, 1), rnd.randint(0, 1), fd, " ".join(ops)))
     info["cases_by_kind"] = counts
     info["random_ops"] = "1..12 operations: 45% settings, 15% reads, 15% pens, 25% pause/resume; ending D / T / T D"
 
 
 def _ops(case):
     t = case.split()
-    return t[0], (t[5:] if t[0] == "T" else t[8:] if t[0] == "W" else t[4:])
+    return t[0], (t[5:] if t[0] == "T" else t[8:] if t[0] == "W" else t[6:] if t[0] == "B" else t[4:])
 
 
 def classify(case, obs):
@@ -170,7 +246,7 @@ def classify(case, obs):
         return None
     layer, ops = _ops(case)
     t = case.split()
-    head = tuple(t[:5] if layer == "T" else t[:8] if layer == "W" else t[:4])
+    head = tuple(t[:5] if layer == "T" else t[:8] if layer == "W" else t[:6] if layer == "B" else t[:4])
     return (head, tuple(op if op[0] not in "sc" else op[0] for op in ops[:8]))
 
 
@@ -209,7 +285,7 @@ def explain(case, obs, findings):
 
 def shrink(case):
     t = case.split()
-    n = 5 if t[0] == "T" else 8 if t[0] == "W" else 4
+    n = 5 if t[0] == "T" else 8 if t[0] == "W" else 6 if t[0] == "B" else 4
     head, ops = t[:n], t[n:]
     for i in range(len(ops)):
         yield " ".join(head + ops[:i] + ops[i + 1:])
